@@ -27,7 +27,7 @@ func init() {
 }
 
 func scopeOf(se *world.Sess) string {
-	if se.P.Cfg.SharedIK {
+	if se.P.Cfg.SharedIKCache() {
 		return fmt.Sprintf("p%d", se.P.ID)
 	}
 	return fmt.Sprintf("s%d", se.N)
@@ -150,7 +150,7 @@ func runC20(t *simrt.Tape, o Opts) Outcome {
 			return n
 		}
 		noRetention := func(op *world.OpRec, p *world.Proc) {
-			if p.Cfg.CacheSK || p.Cfg.CacheIK || p.Cfg.SharedIK || p.Cfg.SessionCache {
+			if p.Cfg.CacheSK || p.Cfg.CacheIK || p.Cfg.SessionCache {
 				return
 			}
 			count(st.Oracle, "cache-off-reloads")
@@ -181,7 +181,7 @@ func runC20(t *simrt.Tape, o Opts) Outcome {
 			p := se.P
 			kmsClause(op, p)
 			noRetention(op, p)
-			if !p.Cfg.CacheIK && !p.Cfg.SharedIK || p.Cfg.SessionCache || !fitsIK(p.Cfg) {
+			if !p.Cfg.CacheIK || p.Cfg.SessionCache || !fitsIK(p.Cfg) {
 				return
 			}
 			sc := scopeOf(se)
@@ -228,7 +228,7 @@ func runC20(t *simrt.Tape, o Opts) Outcome {
 			p := se.P
 			kmsClause(op, p)
 			noRetention(op, p)
-			if !p.Cfg.CacheIK && !p.Cfg.SharedIK || p.Cfg.SessionCache || !fitsIK(p.Cfg) {
+			if !p.Cfg.CacheIK || p.Cfg.SessionCache || !fitsIK(p.Cfg) {
 				return
 			}
 			sc := scopeOf(se)
